@@ -156,8 +156,9 @@ Theorem C01_zero_columns_refuted : exists c,
   wf_cluster_relaxed_b c = true /\ kf_zero_columns c = true /\ detect_ok_b c None = true /\
   DumpDataDir_i (enc_cluster c) None <> Ok (Some (expected_dump_i c None)).
 Proof.
-  exists ex_zerocol. destruct ex_zerocol_refuted as (W & K & D & S1 & S2). repeat split; try assumption.
-  intros E. rewrite E in S1. rewrite S1 in S2. discriminate.
+  exists ex_zerocol. destruct ex_zerocol_refuted as (W & K & D & S1 & S2).
+  split; [exact W|]. split; [exact K|]. split; [exact D|].
+  intros E. rewrite E in S1. rewrite S1 in S2. clear - S2. discriminate S2.
 Qed.
 
 (* The decidable checker the generator uses is sound. *)
